@@ -1404,3 +1404,784 @@ Section Top.
     - exact (l_completes st _ Hi).
   Qed.
 End Top.
+
+(* ================= the model is the source shape's instance (Tie 1) ======= *)
+Lemma r_account_shape r : r_account r = r_account_g model_shape r.
+Proof.
+  unfold r_account, r_account_g, r_thresh. cbn [model_shape sh_nocredit_cmp sh_nocredit_const sh_rx_dec
+    sh_replenish_cmp sh_thresh_div cmp_eval].
+  destruct (r_credits r =? 0) eqn:E; [apply Z.eqb_eq in E; rewrite E|]; reflexivity.
+Qed.
+
+Lemma r_on_pdu_shape r pdu : r_on_pdu r pdu = r_on_pdu_g model_shape r pdu.
+Proof.
+  unfold r_on_pdu, r_on_pdu_g. rewrite <- r_account_shape.
+  destruct (r_account r) as [c cr].
+  cbn [model_shape sh_unknown1_cmp sh_unknown1 sh_hdr_cmp sh_hdr_len sh_unknown2_cmp sh_unknown2
+       sh_incomplete_cmp sh_incomplete_hdr sh_overflow_cmp sh_overflow_hdr sh_sink_skip cmp_eval].
+  set (buf := match r_sdu r with Some s => s ++ pdu | None => pdu end).
+  destruct (r_len r =? 0) eqn:E1.
+  - apply Z.eqb_eq in E1. rewrite E1.
+    destruct (2 <=? zlen buf); [|reflexivity].
+    destruct (un16 buf =? 0) eqn:E2; [apply Z.eqb_eq in E2; rewrite E2; reflexivity|].
+    reflexivity.
+  - rewrite E1. reflexivity.
+Qed.
+
+Lemma emit_shape mps s : emit mps s = emit_g model_shape mps s.
+Proof.
+  unfold emit, emit_g. cbn [model_shape sh_whole_cmp cmp_eval]. f_equal.
+  unfold zlen. destruct (Nat.eqb (length (ztake mps s)) (length s)) eqn:E.
+  - apply Nat.eqb_eq in E. rewrite E, Z.eqb_refl. reflexivity.
+  - apply Nat.eqb_neq in E.
+    destruct (Z.of_nat (length (ztake mps s)) =? Z.of_nat (length s)) eqn:E2; [|reflexivity].
+    apply Z.eqb_eq in E2. lia.
+Qed.
+
+Lemma gather_shape mtu q : forall room, gather room q = gather_g model_shape mtu room q.
+Proof.
+  induction q as [|d q IH]; intros room; cbn [gather gather_g]; [reflexivity|].
+  cbn [model_shape sh_gather_cmp sh_empty_cmp sh_empty_const cmp_eval].
+  destruct (room <=? 0) eqn:E.
+  - apply Z.leb_le in E. destruct (mtu - room <? mtu) eqn:E2; [apply Z.ltb_lt in E2; lia|reflexivity].
+  - apply Z.leb_gt in E. destruct (mtu - room <? mtu) eqn:E2; [|apply Z.ltb_ge in E2; lia].
+    destruct (zdrop room d) as [|x rest] eqn:Ed.
+    + rewrite zlen_nil. cbn [Z.eqb]. rewrite <- IH. reflexivity.
+    + rewrite zlen_cons. pose proof (zlen_nonneg rest).
+      destruct (1 + zlen rest =? 0) eqn:E3; [apply Z.eqb_eq in E3; lia|reflexivity].
+Qed.
+
+Lemma po_shape n : forall c mtu mps q sdu dr, n = Z.to_nat c ->
+  po_g model_shape n c mtu mps q sdu dr =
+  (let '(fs, q', sdu', dr') := po n mtu mps q sdu dr in (fs, c - zlen fs, q', sdu', dr')).
+Proof.
+  induction n as [|n IH]; intros c mtu mps q sdu dr Hn; cbn [po po_g].
+  - rewrite zlen_nil, Z.sub_0_r. reflexivity.
+  - cbn [model_shape sh_loop_cmp sh_loop_const sh_tx_dec cmp_eval].
+    assert (Hc : 0 < c) by lia. destruct (0 <? c) eqn:E; [|apply Z.ltb_ge in E; lia].
+    assert (Hn' : n = Z.to_nat (c - 1)) by lia.
+    destruct sdu as [s|].
+    + rewrite <- emit_shape. destruct (emit mps s) as [packet sdu1].
+      rewrite (IH (c - 1) mtu mps q sdu1 dr Hn').
+      destruct (po n mtu mps q sdu1 dr) as [[[fs q2] sdu2] dr2].
+      rewrite zlen_cons. replace (c - 1 - zlen fs) with (c - (1 + zlen fs)) by lia. reflexivity.
+    + destruct q as [|d q0].
+      * rewrite zlen_nil, Z.sub_0_r. reflexivity.
+      * rewrite <- (gather_shape mtu (d :: q0) mtu).
+        destruct (gather mtu (d :: q0)) as [payload q1].
+        rewrite <- emit_shape. destruct (emit mps (enc_sdu payload)) as [packet sdu1].
+        rewrite (IH (c - 1) mtu mps q1 sdu1 dr Hn').
+        destruct (po n mtu mps q1 sdu1 dr) as [[[fs q2] sdu2] dr2].
+        rewrite zlen_cons. replace (c - 1 - zlen fs) with (c - (1 + zlen fs)) by lia. reflexivity.
+Qed.
+
+Lemma process_output_shape s : process_output s = process_output_g model_shape s.
+Proof.
+  unfold process_output, process_output_g.
+  rewrite (po_shape (Z.to_nat (s_credits s)) (s_credits s) _ _ _ _ _ eq_refl).
+  destruct (po _ _ _ _ _ _) as [[[fs q] sdu] dr]. reflexivity.
+Qed.
+
+Lemma model_is_shape sh : sh = model_shape ->
+  (forall r pdu, r_on_pdu r pdu = r_on_pdu_g sh r pdu) /\
+  (forall s, process_output s = process_output_g sh s).
+Proof. intros ->. split; [exact r_on_pdu_shape|exact process_output_shape]. Qed.
+
+(* ============ one endpoint against an arbitrary (hostile but legal) peer ===== *)
+(* -- the sender half: whatever credit packets arrive (any counts >= 0, also beyond
+   65535 in total: the code does not check the ceiling), what is put on the wire is
+   a well-formed K-frame stream carrying a prefix of the bytes written *)
+Record sinv (s : sndr) (F : list bytes) (W : bytes) : Prop := {
+  si_mps : 1 <= s_mps s;
+  si_mtu : 1 <= s_mtu s < 65536;
+  si_cred : 0 <= s_credits s;
+  si_work : 0 < s_credits s -> s_queue s = [] /\ s_sdu s = None /\ s_drained s = true;
+  si_drained : s_drained s = true -> s_queue s = [] /\ s_sdu s = None;
+  si_queue : Forall nonempty (s_queue s);
+  si_sdu : sdu_ok (s_sdu s);
+  si_frames : Forall (frame_ok (s_mps s)) F;
+  si_stream : exists P, flight [] F (rest_bytes (s_sdu s)) P /\ Forall (sdu_fits (s_mtu s)) P /\
+                        W = concat P ++ concat (s_queue s)
+}.
+
+Lemma sinv_init c mtu mps : 0 <= c -> 1 <= mtu < 65536 -> 1 <= mps -> sinv (snd_init c mtu mps) [] [].
+Proof.
+  intros Hc Hm Hp. constructor; cbn; auto; try lia.
+  exists []. repeat split; constructor.
+Qed.
+
+Lemma sinv_po s F W c q dr s' fs W' :
+  sinv s F W -> 0 <= c -> Forall nonempty q ->
+  process_output (mkSnd c (s_mtu s) (s_mps s) q (s_sdu s) dr) = (s', fs) ->
+  (dr = true -> q = [] /\ s_sdu s = None) ->
+  (forall P, W = concat P ++ concat (s_queue s) -> W' = concat P ++ concat q) ->
+  sinv s' (F ++ fs) W' /\ s_credits s' = c - zlen fs /\ 0 <= s_credits s'.
+Proof.
+  intros [Imps Imtu Icred Iwork Idr Iq Isdu Ifr Ist] Hc Hq Hpo Hdr HW.
+  destruct Ist as (P & Hfl & HP & HWS).
+  unfold process_output in Hpo. cbn [s_credits s_mtu s_mps s_queue s_sdu s_drained] in Hpo.
+  pose proof (po_spec (Z.to_nat c) (s_mtu s) (s_mps s) q (s_sdu s) dr [] F P Imps Imtu Hq Isdu Hfl) as Hs.
+  pose proof (po_drained (Z.to_nat c) (s_mtu s) (s_mps s) q (s_sdu s) dr Hdr) as Hd.
+  destruct (po (Z.to_nat c) (s_mtu s) (s_mps s) q (s_sdu s) dr) as [[[fs0 q'] sdu'] dr'].
+  inversion Hpo; subst s' fs0. clear Hpo.
+  destruct Hs as (P' & H1 & H2 & H3 & H4 & H5 & H6 & H7 & H8 & H9).
+  assert (Hfsl : zlen fs <= c) by (unfold zlen; lia).
+  cbn [s_credits]. split; [|split; [reflexivity|lia]].
+  constructor; cbn [s_credits s_mtu s_mps s_queue s_sdu s_drained]; auto.
+  - lia.
+  - intros Hpos. apply H8. unfold zlen in *. lia.
+  - apply Forall_app. split; assumption.
+  - exists (P ++ P'). repeat split.
+    + exact H1.
+    + apply Forall_app. split; assumption.
+    + rewrite (HW P HWS). rewrite concat_app, <- !app_assoc. rewrite H2. reflexivity.
+Qed.
+
+Inductive sev := SWrite (d : bytes) | SCredits (n : Z).
+Definition sev_ok (v : sev) : Prop := match v with SWrite d => d <> [] | SCredits n => 0 <= n end.
+Definition s_step (s : sndr) (v : sev) : sndr * list bytes :=
+  match v with SWrite d => s_write s d | SCredits n => s_on_credits s n end.
+Fixpoint s_run (s : sndr) (vs : list sev) : sndr * list bytes :=
+  match vs with
+  | [] => (s, [])
+  | v :: vs' => let '(s1, f1) := s_step s v in let '(s2, f2) := s_run s1 vs' in (s2, f1 ++ f2)
+  end.
+Definition s_written (vs : list sev) : bytes :=
+  concat (map (fun v => match v with SWrite d => d | SCredits _ => [] end) vs).
+
+Lemma sinv_step s F W v : sinv s F W -> sev_ok v ->
+  let '(s', fs) := s_step s v in
+  sinv s' (F ++ fs) (W ++ match v with SWrite d => d | SCredits _ => [] end) /\
+  zlen fs <= s_credits s + match v with SCredits n => n | SWrite _ => 0 end.
+Proof.
+  intros Hi Hv. destruct v as [d|n]; cbn [s_step sev_ok] in *.
+  - unfold s_write. destruct (process_output _) as [s' fs] eqn:Hpo.
+    destruct (sinv_po s F W (s_credits s) (s_queue s ++ [d]) false s' fs (W ++ d) Hi (si_cred _ _ _ Hi))
+      as (H1 & H2 & H3); auto.
+    + apply Forall_app. split; [apply (si_queue _ _ _ Hi)|]. constructor; [exact Hv|constructor].
+    + discriminate.
+    + intros P HW. rewrite HW, concat_app. cbn [concat]. rewrite app_nil_r, <- !app_assoc. reflexivity.
+    + split; [exact H1|lia].
+  - unfold s_on_credits. destruct (process_output _) as [s' fs] eqn:Hpo.
+    pose proof (si_cred _ _ _ Hi).
+    destruct (sinv_po s F W (s_credits s + n) (s_queue s) (s_drained s) s' fs W Hi ltac:(lia)
+                (si_queue _ _ _ Hi) Hpo (si_drained _ _ _ Hi) (fun P H => H)) as (H1 & H2 & H3).
+    rewrite app_nil_r. split; [exact H1|lia].
+Qed.
+
+Lemma sender_robust vs : forall s F W, sinv s F W -> Forall sev_ok vs ->
+  let '(s', fs) := s_run s vs in sinv s' (F ++ fs) (W ++ s_written vs).
+Proof.
+  induction vs as [|v vs IH]; intros s F W Hi Hok; cbn [s_run].
+  - unfold s_written. cbn. rewrite !app_nil_r. exact Hi.
+  - inversion Hok as [|? ? Hv Hok']; subst.
+    pose proof (sinv_step s F W v Hi Hv) as Hs. destruct (s_step s v) as [s1 f1]. destruct Hs as (Hs & _).
+    specialize (IH s1 _ _ Hs Hok'). destruct (s_run s1 vs) as [s2 f2].
+    unfold s_written in *. cbn [map concat]. rewrite !app_assoc in *. exact IH.
+Qed.
+
+(* -- the receiver half: whatever frames arrive (any number, any content), its count
+   of the credits the peer holds stays in (max/2, max], so the "peer out of credits"
+   branch of on_pdu is never taken and every credit packet returns 1..max credits *)
+Definition rinv (r : rcvr) : Prop := 1 <= r_max r /\ r_max r / 2 < r_credits r <= r_max r.
+
+Lemma rinv_init m : 1 <= m -> rinv (rcv_init m).
+Proof. intros H. split; cbn; [lia|]. split; [apply half_lt; lia|lia]. Qed.
+
+Lemma rinv_step r pdu : rinv r ->
+  let rr := r_on_pdu r pdu in
+  rinv (rr_state rr) /\
+  match rr_credit rr with Some n => 1 <= n <= r_max r | None => True end /\
+  r_credits r <> 0.
+Proof.
+  intros (Hm & Hlo & Hhi). pose proof (r_on_pdu_asm r pdu) as Ha. cbv zeta in Ha.
+  destruct Ha as (_ & Hc & Hp & Hmax). cbv zeta.
+  assert (H0 : 0 <= r_max r / 2) by (apply Z.div_pos; lia).
+  unfold r_account, r_thresh in Hc, Hp.
+  destruct (r_credits r =? 0) eqn:E; [apply Z.eqb_eq in E; lia|].
+  unfold rinv. rewrite Hc, Hp, Hmax.
+  destruct (r_credits r - 1 <=? r_max r / 2) eqn:E2; cbn [fst snd].
+  - apply Z.leb_le in E2. pose proof (half_lt _ Hm). repeat split; lia.
+  - apply Z.leb_gt in E2. repeat split; lia.
+Qed.
+
+Fixpoint r_run (r : rcvr) (fs : list bytes) : rcvr * list Z :=
+  match fs with
+  | [] => (r, [])
+  | f :: fs' => let rr := r_on_pdu r f in let '(r', cs) := r_run (rr_state rr) fs' in (r', opt_list (rr_credit rr) ++ cs)
+  end.
+
+Lemma receiver_robust fs : forall r, rinv r ->
+  let '(r', cs) := r_run r fs in
+  rinv r' /\ Forall (fun n => 1 <= n <= r_max r) cs /\
+  (* credits out after the run = credits out before - frames + credits returned *)
+  r_credits r' = r_credits r - zlen fs + zsum cs.
+Proof.
+  induction fs as [|f fs IH]; intros r Hi; cbn [r_run].
+  - split; [exact Hi|]. split; [constructor|]. rewrite zlen_nil. cbn [zsum]. lia.
+  - pose proof (rinv_step r f Hi) as Hs. cbv zeta in Hs. destruct Hs as (Hi' & Hcr & Hnz).
+    specialize (IH _ Hi'). pose proof (r_on_pdu_asm r f) as Ha. cbv zeta in Ha.
+    destruct Ha as (_ & Hc & Hp & Hmax).
+    destruct (r_run (rr_state (r_on_pdu r f)) fs) as [r' cs]. destruct IH as (I1 & I2 & I3).
+    split; [exact I1|]. split.
+    + apply Forall_app. split.
+      * destruct (rr_credit (r_on_pdu r f)); constructor; [exact Hcr|constructor].
+      * rewrite Hmax in I2. exact I2.
+    + rewrite I3, zsum_app, zlen_cons, Hc, Hp. unfold r_account, r_thresh.
+      destruct (r_credits r =? 0) eqn:E; [apply Z.eqb_eq in E; contradiction|].
+      destruct (r_credits r - 1 <=? r_max r / 2); cbn [fst snd opt_list zsum]; lia.
+Qed.
+
+(* ====================== n channels on one link: per-channel projection ====== *)
+Fixpoint set_nth {A} (l : list A) (j : nat) (x : A) : list A :=
+  match l, j with
+  | [], _ => []
+  | _ :: l', O => x :: l'
+  | y :: l', S j' => y :: set_nth l' j' x
+  end.
+
+Lemma length_set_nth {A} (l : list A) j x : length (set_nth l j x) = length l.
+Proof. revert j. induction l; intros [|j]; cbn; auto. Qed.
+
+Lemma nth_set_nth {A} (l : list A) j x k d : (j < length l)%nat ->
+  nth k (set_nth l j x) d = if Nat.eqb k j then x else nth k l d.
+Proof.
+  revert j k. induction l as [|y l IH]; intros j k Hj; [cbn in Hj; lia|].
+  destruct j as [|j]; destruct k as [|k]; cbn; auto.
+  apply IH. cbn in Hj. lia.
+Qed.
+
+Lemma map_set_nth {A B} (f : A -> B) (l : list A) j x d : (j < length l)%nat ->
+  f x = f (nth j l d) -> map f (set_nth l j x) = map f l.
+Proof.
+  revert j. induction l as [|y l IH]; intros j Hj Hf; [reflexivity|].
+  destruct j as [|j]; cbn in *; [now rewrite Hf|]. f_equal. apply IH; [lia|assumption].
+Qed.
+
+Definition dflt_ep : ep := mkEp 0 0 0 (snd_init 0 0 0) (rcv_init 0).
+
+Definition sent_by (e : ep) (p : pkt) : bool :=
+  match p with PFrame cid _ => cid =? e_dst e | PCredit cid _ => cid =? e_src e end.
+
+Lemma sent_by_addressed e p : sent_by e p = true <-> addressed e p.
+Proof. destruct p; cbn; apply Z.eqb_eq. Qed.
+
+Definition same_ids (e e' : ep) : Prop :=
+  e_src e' = e_src e /\ e_dst e' = e_dst e /\ e_key e' = e_key e.
+
+Lemma ep_step_ids e v : same_ids e (er_state (ep_step e v)).
+Proof. pose proof (ep_step_static e v) as H. cbv zeta in H. unfold same_ids. tauto. Qed.
+
+Lemma sent_by_ids e e' p : same_ids e e' -> sent_by e' p = sent_by e p.
+Proof. intros (H1 & H2 & _). destruct p; cbn; rewrite ?H1, ?H2; reflexivity. Qed.
+
+Lemma filter_ext_in' {A} (f g : A -> bool) l : (forall x, f x = g x) -> filter f l = filter g l.
+Proof. intros H. induction l; cbn; [reflexivity|]. rewrite H, IHl. reflexivity. Qed.
+
+Lemma filter_all {A} (f : A -> bool) l : Forall (fun x => f x = true) l -> filter f l = l.
+Proof. induction 1; cbn; [reflexivity|]. rewrite H. f_equal. assumption. Qed.
+
+Lemma filter_none {A} (f : A -> bool) l : Forall (fun x => f x = false) l -> filter f l = [].
+Proof. induction 1; cbn; [reflexivity|]. rewrite H. assumption. Qed.
+
+(* everything an endpoint emits names the channel by its own identifiers *)
+Lemma ep_step_out_sent e v : Forall (fun p => sent_by e p = true) (er_out (ep_step e v)).
+Proof.
+  assert (Hf : forall fs, Forall (fun p => sent_by e p = true) (frames_out e fs)).
+  { intros fs. unfold frames_out. induction fs; cbn; constructor; auto. cbn. apply Z.eqb_refl. }
+  destruct v as [d|[cid d|cid n]]; cbn [ep_step].
+  - destruct (s_write _ _). cbn. apply Hf.
+  - destruct (cid =? e_src e); cbn; [|constructor].
+    destruct (rr_credit _); constructor; [cbn; apply Z.eqb_refl|constructor].
+  - destruct (cid =? e_key e); [|cbn; constructor].
+    destruct (s_on_credits _ _). cbn. apply Hf.
+Qed.
+
+Lemma accepts_not_dropped e p : accepts e p = true -> er_dropped (ep_step e (ERecv p)) = false.
+Proof.
+  destruct p as [cid d|cid n]; cbn [accepts ep_step]; intros ->; [reflexivity|].
+  destruct (s_on_credits _ _). reflexivity.
+Qed.
+
+Lemma m_write_spec es : forall i d, (i < length es)%nat ->
+  m_write es i d = (set_nth es i (er_state (ep_step (nth i es dflt_ep) (EWrite d))),
+                    er_out (ep_step (nth i es dflt_ep) (EWrite d))).
+Proof.
+  induction es as [|e es IH]; intros i d Hi; [cbn in Hi; lia|].
+  destruct i as [|i]; cbn [m_write set_nth nth]; [reflexivity|].
+  rewrite IH by (cbn in Hi; lia). reflexivity.
+Qed.
+
+Lemma m_write_out es : forall i d, (length es <= i)%nat -> m_write es i d = (es, []).
+Proof.
+  induction es as [|e es IH]; intros i d Hi; [destruct i; reflexivity|].
+  destruct i as [|i]; [cbn in Hi; lia|]. cbn [m_write]. rewrite IH by (cbn in Hi; lia). reflexivity.
+Qed.
+
+Lemma m_recv_spec es : forall p j, (j < length es)%nat ->
+  accepts (nth j es dflt_ep) p = true ->
+  (forall k, (k < j)%nat -> accepts (nth k es dflt_ep) p = false) ->
+  m_recv es p = (set_nth es j (er_state (ep_step (nth j es dflt_ep) (ERecv p))),
+                 Some (j, ep_step (nth j es dflt_ep) (ERecv p))).
+Proof.
+  induction es as [|e es IH]; intros p j Hj Ha Hb; [cbn in Hj; lia|].
+  destruct j as [|j]; cbn [m_recv set_nth nth length] in *.
+  - rewrite Ha. reflexivity.
+  - rewrite (Hb O ltac:(lia)).
+    rewrite (IH p j ltac:(lia) Ha); [reflexivity|].
+    intros k Hk. apply (Hb (S k)). lia.
+Qed.
+
+Lemma NoDup_map_nth {A} (f : A -> Z) (l : list A) d i j :
+  NoDup (map f l) -> (i < length l)%nat -> (j < length l)%nat ->
+  f (nth i l d) = f (nth j l d) -> i = j.
+Proof.
+  intros Hnd Hi Hj Heq.
+  apply (proj1 (NoDup_nth (map f l) (f d)) Hnd i j); rewrite ?map_length; auto.
+  rewrite !map_nth. exact Heq.
+Qed.
+
+(* position k of [xs] is the peer of position k of [ys] *)
+Record pairs_ok (xs ys : list ep) : Prop := {
+  po_len : length xs = length ys;
+  po_pair : forall k, (k < length xs)%nat ->
+      e_dst (nth k xs dflt_ep) = e_src (nth k ys dflt_ep) /\
+      e_dst (nth k ys dflt_ep) = e_src (nth k xs dflt_ep) /\
+      e_key (nth k xs dflt_ep) = e_dst (nth k xs dflt_ep) /\
+      e_key (nth k ys dflt_ep) = e_dst (nth k ys dflt_ep);
+  po_ndx : NoDup (map e_src xs);
+  po_ndy : NoDup (map e_src ys)
+}.
+
+Lemma pairs_ok_sym xs ys : pairs_ok xs ys -> pairs_ok ys xs.
+Proof.
+  intros [Hl Hp Hx Hy]. constructor; auto.
+  intros k Hk. rewrite <- Hl in Hk. destruct (Hp k Hk) as (A & B & C & D). auto.
+Qed.
+
+Lemma sent_unique xs ys p j k : pairs_ok xs ys -> (j < length xs)%nat -> (k < length xs)%nat ->
+  sent_by (nth j xs dflt_ep) p = true -> sent_by (nth k xs dflt_ep) p = true -> j = k.
+Proof.
+  intros [Hl Hp Hx Hy] Hj Hk Sj Sk. destruct p as [cid d|cid n]; cbn [sent_by] in *;
+    apply Z.eqb_eq in Sj; apply Z.eqb_eq in Sk.
+  - destruct (Hp j Hj) as (Aj & _). destruct (Hp k Hk) as (Ak & _).
+    apply (NoDup_map_nth e_src ys dflt_ep j k Hy); first [lia|congruence].
+  - apply (NoDup_map_nth e_src xs dflt_ep j k Hx); first [assumption|lia|congruence].
+Qed.
+
+Lemma route_accepts xs ys p j : pairs_ok xs ys -> (j < length xs)%nat ->
+  sent_by (nth j xs dflt_ep) p = true -> accepts (nth j ys dflt_ep) p = true.
+Proof.
+  intros [Hl Hp Hx Hy] Hj Sj. destruct (Hp j Hj) as (A & B & C & D).
+  destruct p as [cid d|cid n]; cbn [sent_by accepts] in *; apply Z.eqb_eq in Sj; apply Z.eqb_eq; congruence.
+Qed.
+
+Lemma route_unique xs ys p j k : pairs_ok xs ys -> (j < length xs)%nat -> (k < length xs)%nat ->
+  sent_by (nth j xs dflt_ep) p = true -> accepts (nth k ys dflt_ep) p = true -> k = j.
+Proof.
+  intros [Hl Hp Hx Hy] Hj Hk Sj Ak. destruct (Hp j Hj) as (A & B & C & D). destruct (Hp k Hk) as (A' & B' & C' & D').
+  destruct p as [cid d|cid n]; cbn [sent_by accepts] in *; apply Z.eqb_eq in Sj; apply Z.eqb_eq in Ak.
+  - apply (NoDup_map_nth e_src ys dflt_ep k j Hy); first [lia|congruence].
+  - apply (NoDup_map_nth e_src xs dflt_ep k j Hx); first [assumption|lia|congruence].
+Qed.
+
+Lemma pairs_ok_set_x xs ys j e : pairs_ok xs ys -> (j < length xs)%nat -> same_ids (nth j xs dflt_ep) e ->
+  pairs_ok (set_nth xs j e) ys.
+Proof.
+  intros [Hl Hp Hx Hy] Hj (I1 & I2 & I3). constructor.
+  - rewrite length_set_nth. exact Hl.
+  - intros k Hk. rewrite length_set_nth in Hk. rewrite (nth_set_nth xs j e k dflt_ep Hj).
+    destruct (Nat.eqb k j) eqn:E; [|apply Hp; exact Hk].
+    apply Nat.eqb_eq in E. subst k. rewrite I1, I2, I3. apply Hp. exact Hk.
+  - rewrite (map_set_nth e_src xs j e dflt_ep Hj I1). exact Hx.
+  - exact Hy.
+Qed.
+
+Lemma pairs_ok_set_y xs ys j e : pairs_ok xs ys -> (j < length ys)%nat -> same_ids (nth j ys dflt_ep) e ->
+  pairs_ok xs (set_nth ys j e).
+Proof. intros H Hj Hs. apply pairs_ok_sym. apply pairs_ok_set_x; auto. apply pairs_ok_sym. exact H. Qed.
+
+Definition covered (xs : list ep) (w : list pkt) : Prop :=
+  Forall (fun p => exists j, (j < length xs)%nat /\ sent_by (nth j xs dflt_ep) p = true) w.
+
+Lemma covered_set xs w j e : covered xs w -> (j < length xs)%nat -> same_ids (nth j xs dflt_ep) e ->
+  covered (set_nth xs j e) w.
+Proof.
+  intros Hc Hj Hs. eapply Forall_impl; [|exact Hc]. intros p (i & Hi & Si).
+  exists i. rewrite length_set_nth. split; [exact Hi|].
+  rewrite (nth_set_nth xs j e i dflt_ep Hj). destruct (Nat.eqb i j) eqn:E; [|exact Si].
+  apply Nat.eqb_eq in E. subst i. rewrite (sent_by_ids _ _ p Hs). exact Si.
+Qed.
+
+Lemma covered_out xs j (out : list pkt) : (j < length xs)%nat ->
+  Forall (fun p => sent_by (nth j xs dflt_ep) p = true) out -> covered xs out.
+Proof. intros Hj Ho. eapply Forall_impl; [|exact Ho]. intros p Hp. exists j. auto. Qed.
+
+Record mwf (st : msys) : Prop := {
+  mw_pairs : pairs_ok (m_a st) (m_b st);
+  mw_wab : covered (m_a st) (m_ab st);
+  mw_wba : covered (m_b st) (m_ba st)
+}.
+
+Definition proj (k : nat) (st : msys) : lsys :=
+  mkL (nth k (m_a st) dflt_ep) (nth k (m_b st) dflt_ep)
+      (filter (sent_by (nth k (m_a st) dflt_ep)) (m_ab st))
+      (filter (sent_by (nth k (m_b st) dflt_ep)) (m_ba st)).
+
+(* what a delivery of [p] (sent by x_j) to the side [ys] does, seen from channel k *)
+Lemma deliver_side xs ys p j k wrev :
+  pairs_ok xs ys -> (j < length xs)%nat -> (k < length xs)%nat -> sent_by (nth j xs dflt_ep) p = true ->
+  let r := ep_step (nth j ys dflt_ep) (ERecv p) in
+  m_recv ys p = (set_nth ys j (er_state r), Some (j, r)) /\
+  er_dropped r = false /\
+  pairs_ok xs (set_nth ys j (er_state r)) /\
+  (forall w, covered ys w -> covered (set_nth ys j (er_state r)) (w ++ er_out r)) /\
+  (k = j ->
+     nth k (set_nth ys j (er_state r)) dflt_ep = er_state r /\
+     filter (sent_by (er_state r)) (wrev ++ er_out r) = filter (sent_by (nth k ys dflt_ep)) wrev ++ er_out r) /\
+  (k <> j ->
+     nth k (set_nth ys j (er_state r)) dflt_ep = nth k ys dflt_ep /\
+     filter (sent_by (nth k ys dflt_ep)) (wrev ++ er_out r) = filter (sent_by (nth k ys dflt_ep)) wrev).
+Proof.
+  intros Hp Hj Hk Sj r.
+  pose proof (po_len _ _ Hp) as Hl.
+  pose proof (route_accepts xs ys p j Hp Hj Sj) as Ha.
+  assert (Hjy : (j < length ys)%nat) by lia.
+  pose proof (ep_step_ids (nth j ys dflt_ep) (ERecv p)) as Hids. fold r in Hids.
+  pose proof (ep_step_out_sent (nth j ys dflt_ep) (ERecv p)) as Hout. fold r in Hout.
+  split; [|split; [|split; [|split; [|split]]]].
+  - apply m_recv_spec; auto. intros i Hi.
+    destruct (accepts (nth i ys dflt_ep) p) eqn:E; [|reflexivity].
+    pose proof (route_unique xs ys p j i Hp Hj ltac:(lia) Sj E). lia.
+  - apply accepts_not_dropped. exact Ha.
+  - apply pairs_ok_set_y; auto.
+  - intros w Hw. unfold covered. apply Forall_app. split.
+    + apply covered_set; auto.
+    + eapply Forall_impl; [|exact Hout]. intros q Hq. exists j. rewrite length_set_nth. split; [exact Hjy|].
+      rewrite (nth_set_nth ys j _ j dflt_ep Hjy), Nat.eqb_refl. rewrite (sent_by_ids _ _ q Hids). exact Hq.
+  - intros ->. rewrite (nth_set_nth ys j _ j dflt_ep Hjy), Nat.eqb_refl. split; [reflexivity|].
+    rewrite filter_app. rewrite !(filter_ext_in' (sent_by (er_state r)) (sent_by (nth j ys dflt_ep)))
+      by (intros q; apply sent_by_ids; exact Hids).
+    rewrite (filter_all _ (er_out r) Hout). reflexivity.
+  - intros Hne. rewrite (nth_set_nth ys j _ k dflt_ep Hjy).
+    destruct (Nat.eqb k j) eqn:E; [apply Nat.eqb_eq in E; contradiction|]. split; [reflexivity|].
+    rewrite filter_app. rewrite (filter_none _ (er_out r)); [apply app_nil_r|].
+    eapply Forall_impl; [|exact Hout]. intros q Hq.
+    destruct (sent_by (nth k ys dflt_ep) q) eqn:E2; [|reflexivity].
+    pose proof (sent_unique ys xs q j k (pairs_ok_sym _ _ Hp) Hjy ltac:(lia) Hq E2). congruence.
+Qed.
+
+(* the same for a write on channel i of side [xs] *)
+Lemma write_side xs ys i d k w :
+  pairs_ok xs ys -> (i < length xs)%nat -> (k < length xs)%nat ->
+  let r := ep_step (nth i xs dflt_ep) (EWrite d) in
+  m_write xs i d = (set_nth xs i (er_state r), er_out r) /\
+  pairs_ok (set_nth xs i (er_state r)) ys /\
+  (covered xs w -> covered (set_nth xs i (er_state r)) (w ++ er_out r)) /\
+  (forall w', covered ys w' -> covered ys w') /\
+  (k = i ->
+     nth k (set_nth xs i (er_state r)) dflt_ep = er_state r /\
+     filter (sent_by (er_state r)) (w ++ er_out r) = filter (sent_by (nth k xs dflt_ep)) w ++ er_out r) /\
+  (k <> i ->
+     nth k (set_nth xs i (er_state r)) dflt_ep = nth k xs dflt_ep /\
+     filter (sent_by (nth k xs dflt_ep)) (w ++ er_out r) = filter (sent_by (nth k xs dflt_ep)) w).
+Proof.
+  intros Hp Hi Hk r.
+  pose proof (ep_step_ids (nth i xs dflt_ep) (EWrite d)) as Hids. fold r in Hids.
+  pose proof (ep_step_out_sent (nth i xs dflt_ep) (EWrite d)) as Hout. fold r in Hout.
+  split; [|split; [|split; [|split; [|split]]]].
+  - apply m_write_spec. exact Hi.
+  - apply pairs_ok_set_x; auto.
+  - intros Hw. unfold covered. apply Forall_app. split.
+    + apply covered_set; auto.
+    + eapply Forall_impl; [|exact Hout]. intros q Hq. exists i. rewrite length_set_nth. split; [exact Hi|].
+      rewrite (nth_set_nth xs i _ i dflt_ep Hi), Nat.eqb_refl. rewrite (sent_by_ids _ _ q Hids). exact Hq.
+  - auto.
+  - intros ->. rewrite (nth_set_nth xs i _ i dflt_ep Hi), Nat.eqb_refl. split; [reflexivity|].
+    rewrite filter_app. rewrite !(filter_ext_in' (sent_by (er_state r)) (sent_by (nth i xs dflt_ep)))
+      by (intros q; apply sent_by_ids; exact Hids).
+    rewrite (filter_all _ (er_out r) Hout). reflexivity.
+  - intros Hne. rewrite (nth_set_nth xs i _ k dflt_ep Hi).
+    destruct (Nat.eqb k i) eqn:E; [apply Nat.eqb_eq in E; contradiction|]. split; [reflexivity|].
+    rewrite filter_app. rewrite (filter_none _ (er_out r)); [apply app_nil_r|].
+    eapply Forall_impl; [|exact Hout]. intros q Hq.
+    destruct (sent_by (nth k xs dflt_ep) q) eqn:E2; [|reflexivity].
+    pose proof (sent_unique xs ys q i k Hp Hi Hk Hq E2). congruence.
+Qed.
+
+Definition plabel (k : nat) (st : msys) (l : mlabel) : option label :=
+  match l with
+  | MWriteA i d => if Nat.eqb i k then Some (WriteA d) else None
+  | MWriteB i d => if Nat.eqb i k then Some (WriteB d) else None
+  | MDeliverAB =>
+      match m_ab st with
+      | p :: _ => if sent_by (nth k (m_a st) dflt_ep) p then Some DeliverAB else None
+      | [] => None
+      end
+  | MDeliverBA =>
+      match m_ba st with
+      | p :: _ => if sent_by (nth k (m_b st) dflt_ep) p then Some DeliverBA else None
+      | [] => None
+      end
+  end.
+
+Definition psink (k : nat) (o : option (nat * bytes)) : option bytes :=
+  match o with Some (j, d) => if Nat.eqb j k then Some d else None | None => None end.
+
+Definition step_rel (k : nat) (st : msys) (l : mlabel) (r : mres) : Prop :=
+  match plabel k st l with
+  | Some l' =>
+      let r' := l_step (proj k st) l' in
+      proj k (mr_state r) = lr_state r' /\
+      psink k (mr_sink_a r) = lr_sink_a r' /\ psink k (mr_sink_b r) = lr_sink_b r'
+  | None =>
+      proj k (mr_state r) = proj k st /\ psink k (mr_sink_a r) = None /\ psink k (mr_sink_b r) = None
+  end.
+
+Lemma psink_sink_of_same k r : psink k (sink_of (Some (k, r))) = er_sink r.
+Proof. cbn. destruct (er_sink r); cbn; [rewrite Nat.eqb_refl|]; reflexivity. Qed.
+
+Lemma psink_sink_of_other k j r : j <> k -> psink k (sink_of (Some (j, r))) = None.
+Proof.
+  intros H. cbn. destruct (er_sink r); cbn; [|reflexivity].
+  destruct (Nat.eqb j k) eqn:E; [apply Nat.eqb_eq in E; contradiction|reflexivity].
+Qed.
+
+Lemma m_step_proj st l k : mwf st -> (k < length (m_a st))%nat ->
+  let r := m_step st l in
+  mwf (mr_state r) /\ length (m_a (mr_state r)) = length (m_a st) /\ mr_dropped r = false /\
+  step_rel k st l r.
+Proof.
+  intros [Hp Hwab Hwba] Hk. pose proof (po_len _ _ Hp) as Hl.
+  pose proof (pairs_ok_sym _ _ Hp) as Hp'.
+  destruct l as [i d|i d| |]; cbn [m_step]; unfold step_rel; cbn [plabel].
+  - (* MWriteA *)
+    destruct (Nat.lt_ge_cases i (length (m_a st))) as [Hi|Hi].
+    + destruct (write_side (m_a st) (m_b st) i d k (m_ab st) Hp Hi Hk) as (E & P1 & C1 & _ & Keq & Kne).
+      rewrite E. cbn [mr_state mr_dropped mr_sink_a mr_sink_b m_a m_b m_ab m_ba].
+      split; [constructor; cbn [m_a m_b m_ab m_ba]; auto|].
+      rewrite length_set_nth. split; [reflexivity|]. split; [reflexivity|].
+      destruct (Nat.eqb i k) eqn:Eik.
+      * apply Nat.eqb_eq in Eik. subst i. destruct (Keq eq_refl) as (N1 & F1).
+        unfold proj. cbn [l_step l_a l_b l_ab l_ba lr_state lr_sink_a lr_sink_b psink m_a m_b m_ab m_ba].
+        rewrite N1, F1. repeat split; reflexivity.
+      * apply Nat.eqb_neq in Eik. destruct (Kne ltac:(congruence)) as (N1 & F1).
+        unfold proj. cbn [m_a m_b m_ab m_ba psink]. rewrite N1, F1. repeat split; reflexivity.
+    + rewrite (m_write_out (m_a st) i d Hi). cbn [mr_state mr_dropped mr_sink_a mr_sink_b m_a].
+      rewrite app_nil_r. destruct st as [xa xb wab wba]. cbn [m_a m_b m_ab m_ba] in *.
+      split; [constructor; auto|]. split; [reflexivity|]. split; [reflexivity|].
+      destruct (Nat.eqb i k) eqn:Eik; [apply Nat.eqb_eq in Eik; lia|]. repeat split; reflexivity.
+  - (* MWriteB *)
+    destruct (Nat.lt_ge_cases i (length (m_b st))) as [Hi|Hi].
+    + destruct (write_side (m_b st) (m_a st) i d k (m_ba st) Hp' Hi ltac:(lia)) as (E & P1 & C1 & _ & Keq & Kne).
+      rewrite E. cbn [mr_state mr_dropped mr_sink_a mr_sink_b m_a m_b m_ab m_ba].
+      split; [constructor; cbn [m_a m_b m_ab m_ba]; auto using pairs_ok_sym|].
+      split; [reflexivity|]. split; [reflexivity|].
+      destruct (Nat.eqb i k) eqn:Eik.
+      * apply Nat.eqb_eq in Eik. subst i. destruct (Keq eq_refl) as (N1 & F1).
+        unfold proj. cbn [l_step l_a l_b l_ab l_ba lr_state lr_sink_a lr_sink_b psink m_a m_b m_ab m_ba].
+        rewrite N1, F1. repeat split; reflexivity.
+      * apply Nat.eqb_neq in Eik. destruct (Kne ltac:(congruence)) as (N1 & F1).
+        unfold proj. cbn [m_a m_b m_ab m_ba psink]. rewrite N1, F1. repeat split; reflexivity.
+    + rewrite (m_write_out (m_b st) i d Hi). cbn [mr_state mr_dropped mr_sink_a mr_sink_b m_a].
+      rewrite app_nil_r. destruct st as [xa xb wab wba]. cbn [m_a m_b m_ab m_ba] in *.
+      split; [constructor; auto|]. split; [reflexivity|]. split; [reflexivity|].
+      destruct (Nat.eqb i k) eqn:Eik; [apply Nat.eqb_eq in Eik; lia|]. repeat split; reflexivity.
+  - (* MDeliverAB *)
+    destruct (m_ab st) as [|p w] eqn:Ew.
+    + cbn [mr_state mr_dropped mr_sink_a mr_sink_b psink]. split; [constructor; auto; rewrite Ew; constructor|].
+      split; [reflexivity|]. split; [reflexivity|]. repeat split; reflexivity.
+    + inversion Hwab as [|? ? (j & Hj & Sj) Hw']; subst.
+      destruct (deliver_side (m_a st) (m_b st) p j k (m_ba st) Hp Hj Hk Sj) as (E & D & P1 & C1 & Keq & Kne).
+      rewrite E. cbn [mr_state mr_dropped mr_sink_a mr_sink_b m_a m_b m_ab m_ba out_of dropped_of].
+      split; [constructor; cbn [m_a m_b m_ab m_ba]; auto|]. split; [reflexivity|]. split; [exact D|].
+      destruct (sent_by (nth k (m_a st) dflt_ep) p) eqn:Sk.
+      * pose proof (sent_unique _ _ p j k Hp Hj Hk Sj Sk). subst j. destruct (Keq eq_refl) as (N1 & F1).
+        unfold proj. cbn [l_step l_a l_b l_ab l_ba m_a m_b m_ab m_ba]. rewrite Ew. cbn [filter]. rewrite Sk.
+        cbn [lr_state lr_sink_a lr_sink_b psink]. rewrite N1, F1, psink_sink_of_same. repeat split; reflexivity.
+      * assert (Hne : k <> j) by (intros ->; congruence). destruct (Kne Hne) as (N1 & F1).
+        unfold proj. cbn [m_a m_b m_ab m_ba psink]. rewrite Ew. cbn [filter]. rewrite Sk, N1, F1.
+        rewrite psink_sink_of_other by congruence. repeat split; reflexivity.
+  - (* MDeliverBA *)
+    destruct (m_ba st) as [|p w] eqn:Ew.
+    + cbn [mr_state mr_dropped mr_sink_a mr_sink_b psink]. split; [constructor; auto; rewrite Ew; constructor|].
+      split; [reflexivity|]. split; [reflexivity|]. repeat split; reflexivity.
+    + inversion Hwba as [|? ? (j & Hj & Sj) Hw']; subst.
+      destruct (deliver_side (m_b st) (m_a st) p j k (m_ab st) Hp' Hj ltac:(lia) Sj) as (E & D & P1 & C1 & Keq & Kne).
+      rewrite E. cbn [mr_state mr_dropped mr_sink_a mr_sink_b m_a m_b m_ab m_ba out_of dropped_of].
+      split; [constructor; cbn [m_a m_b m_ab m_ba]; auto using pairs_ok_sym|].
+      rewrite length_set_nth. split; [reflexivity|]. split; [exact D|].
+      destruct (sent_by (nth k (m_b st) dflt_ep) p) eqn:Sk.
+      * pose proof (sent_unique _ _ p j k Hp' Hj ltac:(lia) Sj Sk). subst j. destruct (Keq eq_refl) as (N1 & F1).
+        unfold proj. cbn [l_step l_a l_b l_ab l_ba m_a m_b m_ab m_ba]. rewrite Ew. cbn [filter]. rewrite Sk.
+        cbn [lr_state lr_sink_a lr_sink_b psink]. rewrite N1, F1, psink_sink_of_same. repeat split; reflexivity.
+      * assert (Hne : k <> j) by (intros ->; congruence). destruct (Kne Hne) as (N1 & F1).
+        unfold proj. cbn [m_a m_b m_ab m_ba psink]. rewrite Ew. cbn [filter]. rewrite Sk, N1, F1.
+        rewrite psink_sink_of_other by congruence. repeat split; reflexivity.
+Qed.
+
+Definition mlabel_ok (l : mlabel) : Prop :=
+  match l with MWriteA _ d | MWriteB _ d => d <> [] | _ => True end.
+
+Definition m_written_a (k : nat) (ls : list mlabel) : bytes :=
+  concat (map (fun l => match l with MWriteA i d => if Nat.eqb i k then d else [] | _ => [] end) ls).
+Definition m_written_b (k : nat) (ls : list mlabel) : bytes :=
+  concat (map (fun l => match l with MWriteB i d => if Nat.eqb i k then d else [] | _ => [] end) ls).
+Definition m_sunk_a (k : nat) (rs : list mres) : bytes :=
+  concat (map (fun r => opt_bytes (psink k (mr_sink_a r))) rs).
+Definition m_sunk_b (k : nat) (rs : list mres) : bytes :=
+  concat (map (fun r => opt_bytes (psink k (mr_sink_b r))) rs).
+
+(* channel k of the n-channel system behaves as the one-channel system run under a
+   schedule of its own: same writes, same sink calls, same final state *)
+Lemma m_run_proj ls : forall st k, mwf st -> (k < length (m_a st))%nat -> Forall mlabel_ok ls ->
+  let '(st', rs) := m_run st ls in
+  mwf st' /\ length (m_a st') = length (m_a st) /\ Forall (fun r => mr_dropped r = false) rs /\
+  exists ls', Forall label_ok ls' /\
+    let '(lst, lrs) := l_run (proj k st) ls' in
+    proj k st' = lst /\ written_a ls' = m_written_a k ls /\ written_b ls' = m_written_b k ls /\
+    sunk_a lrs = m_sunk_a k rs /\ sunk_b lrs = m_sunk_b k rs.
+Proof.
+  induction ls as [|l ls IH]; intros st k Hw Hk Hok; cbn [m_run].
+  - split; [exact Hw|]. split; [reflexivity|]. split; [constructor|].
+    exists []. split; [constructor|]. cbn. repeat split; reflexivity.
+  - inversion Hok as [|? ? Hl Hok']; subst.
+    destruct (m_step_proj st l k Hw Hk) as (Hw1 & Hlen1 & Hd1 & Hrel).
+    assert (Hk1 : (k < length (m_a (mr_state (m_step st l))))%nat) by lia.
+    specialize (IH (mr_state (m_step st l)) k Hw1 Hk1 Hok').
+    destruct (m_run (mr_state (m_step st l)) ls) as [st' rs].
+    destruct IH as (Hw2 & Hlen2 & Hd2 & ls' & Hok2 & IH).
+    split; [exact Hw2|]. split; [lia|]. split; [constructor; assumption|].
+    unfold step_rel in Hrel. destruct (plabel k st l) as [l'|] eqn:Epl.
+    + destruct Hrel as (Hpr & Hsa & Hsb). rewrite Hpr in IH.
+      exists (l' :: ls'). split.
+      { constructor; [|exact Hok2].
+        destruct l as [i d|i d| |]; cbn [plabel] in Epl.
+        - destruct (Nat.eqb i k); inversion Epl; subst; exact Hl.
+        - destruct (Nat.eqb i k); inversion Epl; subst; exact Hl.
+        - destruct (m_ab st) as [|p w]; [discriminate|]. destruct (sent_by _ p); inversion Epl; exact I.
+        - destruct (m_ba st) as [|p w]; [discriminate|]. destruct (sent_by _ p); inversion Epl; exact I. }
+      cbn [l_run]. destruct (l_run (lr_state (l_step (proj k st) l')) ls') as [lst lrs].
+      destruct IH as (I1 & I2 & I3 & I4 & I5).
+      unfold written_a, written_b, sunk_a, sunk_b, m_written_a, m_written_b, m_sunk_a, m_sunk_b in *.
+      cbn [map concat]. rewrite I2, I3, I4, I5, <- Hsa, <- Hsb.
+      split; [exact I1|].
+      destruct l as [i d|i d| |]; cbn [plabel] in Epl.
+      * destruct (Nat.eqb i k); inversion Epl; subst. repeat split; reflexivity.
+      * destruct (Nat.eqb i k); inversion Epl; subst. repeat split; reflexivity.
+      * destruct (m_ab st) as [|p w]; [discriminate|]. destruct (sent_by _ p); inversion Epl; subst.
+        repeat split; reflexivity.
+      * destruct (m_ba st) as [|p w]; [discriminate|]. destruct (sent_by _ p); inversion Epl; subst.
+        repeat split; reflexivity.
+    + destruct Hrel as (Hpr & Hsa & Hsb). rewrite Hpr in IH.
+      exists ls'. split; [exact Hok2|].
+      destruct (l_run (proj k st) ls') as [lst lrs].
+      destruct IH as (I1 & I2 & I3 & I4 & I5).
+      unfold m_written_a, m_written_b, m_sunk_a, m_sunk_b in *.
+      cbn [map concat]. rewrite Hsa, Hsb. cbn [opt_bytes app].
+      split; [exact I1|].
+      destruct l as [i d|i d| |]; cbn [plabel] in Epl.
+      * destruct (Nat.eqb i k); [discriminate|]. cbn [app]. auto.
+      * destruct (Nat.eqb i k); [discriminate|]. cbn [app]. auto.
+      * cbn [app]. auto.
+      * cbn [app]. auto.
+Qed.
+
+(* ---- n channels negotiated on one link *)
+Record chan_cfg := mkCfg {
+  cc_ka : kind; cc_kb : kind; cc_cid_a : Z; cc_cid_b : Z;
+  cc_mtu_a : Z; cc_mps_a : Z; cc_cr_a : Z; cc_mtu_b : Z; cc_mps_b : Z; cc_cr_b : Z
+}.
+Definition cfg_ok (c : chan_cfg) : Prop :=
+  params_ok (cc_mtu_a c) (cc_mps_a c) (cc_cr_a c) /\ params_ok (cc_mtu_b c) (cc_mps_b c) (cc_cr_b c).
+Definition cfg_sys (c : chan_cfg) : lsys :=
+  sys0 (cc_ka c) (cc_kb c) (cc_cid_a c) (cc_cid_b c) (cc_mtu_a c) (cc_mps_a c) (cc_cr_a c)
+       (cc_mtu_b c) (cc_mps_b c) (cc_cr_b c).
+Definition dflt_cfg : chan_cfg := mkCfg LeInitiator LeAcceptor 0 0 0 0 0 0 0 0.
+Definition m_init (cs : list chan_cfg) : msys :=
+  mkM (map (fun c => l_a (cfg_sys c)) cs) (map (fun c => l_b (cfg_sys c)) cs) [] [].
+
+Lemma nth_map_dflt {A B} (f : A -> B) (l : list A) k d d' : (k < length l)%nat ->
+  nth k (map f l) d' = f (nth k l d).
+Proof. intros Hk. rewrite (nth_indep (map f l) d' (f d)) by (rewrite map_length; exact Hk). apply map_nth. Qed.
+
+Lemma mwf_init cs : NoDup (map cc_cid_a cs) -> NoDup (map cc_cid_b cs) -> mwf (m_init cs).
+Proof.
+  intros Ha Hb. constructor; cbn [m_init m_a m_b m_ab m_ba]; [|constructor|constructor].
+  constructor.
+  - rewrite !map_length. reflexivity.
+  - intros k Hk. rewrite map_length in Hk.
+    rewrite (nth_map_dflt _ cs k dflt_cfg dflt_ep Hk), (nth_map_dflt _ cs k dflt_cfg dflt_ep Hk).
+    cbn. auto.
+  - rewrite map_map. cbn. exact Ha.
+  - rewrite map_map. cbn. exact Hb.
+Qed.
+
+Lemma proj_init cs k : (k < length cs)%nat -> proj k (m_init cs) = cfg_sys (nth k cs dflt_cfg).
+Proof.
+  intros Hk. unfold proj, m_init. cbn [m_a m_b m_ab m_ba filter].
+  rewrite (nth_map_dflt _ cs k dflt_cfg dflt_ep Hk), (nth_map_dflt _ cs k dflt_cfg dflt_ep Hk).
+  reflexivity.
+Qed.
+
+Section Multi.
+  Variable cs : list chan_cfg.
+  Hypothesis Hcfg : Forall cfg_ok cs.
+  Hypothesis Hnda : NoDup (map cc_cid_a cs).
+  Hypothesis Hndb : NoDup (map cc_cid_b cs).
+
+  (* every channel of the link, whatever the other channels do: nothing is dropped by the
+     tables; its sink bytes are a prefix of its written bytes, equal (with drain() done)
+     as soon as none of its own packets is in flight; its credit ledger holds and its
+     frames are within the MPS *)
+  Theorem multi_channel ls k : Forall mlabel_ok ls -> (k < length cs)%nat ->
+    let c := nth k cs dflt_cfg in
+    let '(st, rs) := m_run (m_init cs) ls in
+    let pk := proj k st in
+    Forall (fun r => mr_dropped r = false) rs /\
+    (exists X, m_written_a k ls = m_sunk_b k rs ++ X) /\
+    (exists Y, m_written_b k ls = m_sunk_a k rs ++ Y) /\
+    (l_ab pk = [] -> l_ba pk = [] ->
+       m_written_a k ls = m_sunk_b k rs /\ m_written_b k ls = m_sunk_a k rs /\
+       s_drained (e_snd (l_a pk)) = true /\ s_drained (e_snd (l_b pk)) = true) /\
+    ledger (e_snd (l_a pk)) (e_rcv (l_b pk)) (l_ab pk) (l_ba pk) (cc_cr_b c) /\
+    ledger (e_snd (l_b pk)) (e_rcv (l_a pk)) (l_ba pk) (l_ab pk) (cc_cr_a c) /\
+    frames_within (cc_mps_b c) (l_ab pk) /\ frames_within (cc_mps_a c) (l_ba pk).
+  Proof.
+    intros Hok Hk c.
+    assert (Hkm : (k < length (m_a (m_init cs)))%nat) by (cbn; rewrite map_length; exact Hk).
+    pose proof (m_run_proj ls (m_init cs) k (mwf_init cs Hnda Hndb) Hkm Hok) as H.
+    destruct (m_run (m_init cs) ls) as [st rs].
+    destruct H as (_ & _ & Hd & ls' & Hok' & H).
+    rewrite (proj_init cs k Hk) in H. fold c in H.
+    assert (Hc : cfg_ok c) by (apply (proj1 (Forall_forall _ _) Hcfg); apply nth_In; exact Hk).
+    destruct Hc as (Ha & Hb).
+    pose proof (stream_exact (cc_ka c) (cc_kb c) (cc_cid_a c) (cc_cid_b c) _ _ _ _ _ _ Ha Hb ls' Hok') as Hs.
+    pose proof (credit_safe (cc_ka c) (cc_kb c) (cc_cid_a c) (cc_cid_b c) _ _ _ _ _ _ Ha Hb ls' Hok') as Hc.
+    pose proof (frame_le_mps (cc_ka c) (cc_kb c) (cc_cid_a c) (cc_cid_b c) _ _ _ _ _ _ Ha Hb ls' Hok') as Hf.
+    unfold cfg_sys in H. cbv zeta in Hc, Hf.
+    destruct (l_run (sys0 _ _ _ _ _ _ _ _ _ _) ls') as [lst lrs].
+    destruct H as (Hp & W1 & W2 & S1 & S2). cbn [fst] in Hc, Hf.
+    rewrite Hp. rewrite <- W1, <- W2, <- S1, <- S2.
+    destruct Hs as (P1 & P2 & Q). destruct Hc as (L1 & L2). destruct Hf as (F1 & F2).
+    split; [exact Hd|]. split; [exact P1|]. split; [exact P2|]. split; [exact Q|].
+    split; [exact L1|]. split; [exact L2|]. split; [exact F1|exact F2].
+  Qed.
+End Multi.
+
+(* ---- the receiver-without-sink question.  The property speaks of a receiver that
+   "keeps consuming", so the theorems assume a sink; this shows the assumption is
+   needed: one frame that arrives before the sink is set is lost together with its
+   credit, and with max_credits = 1 the channel is dead for good afterwards. *)
+Lemma ep_step_s_sink e v : ep_step_s true e v = ep_step e v.
+Proof. destruct v as [d|[cid d|cid n]]; cbn; rewrite ?andb_false_r; reflexivity. Qed.
+
+Lemma nosink_leak_refuted :
+  let b0 := ep_init KDst 64 80 1 23 23 1 in          (* the receiver, max_credits 1 *)
+  let f1 := enc_sdu (mk_data 0 5) in let f2 := enc_sdu (mk_data 5 5) in
+  let '(b, rs) := ep_run_s b0 [(false, ERecv (PFrame 64 f1)); (true, ERecv (PFrame 64 f2))] in
+  (* the first SDU was discarded without a credit being returned; the sender, who paid
+     its only credit for it, can never send the second one *)
+  map (fun r => (er_out r, er_sink r)) rs = [([], None); ([PCredit 64 1], Some (mk_data 5 5))] /\
+  r_credits (e_rcv b) = 1.
+Proof. vm_compute. split; reflexivity. Qed.
